@@ -205,9 +205,9 @@ func runC10(c *Ctx) {
 		// the clamp
 		var sizePhi, free ssa.Value
 		names := map[ssa.Value]string{}
-		for _, a := range storesTo(fn, cTail) {
-			if bo, ok := stripConv(a.Val).(*ssa.BinOp); ok && bo.Op == token.ADD {
-				for _, op := range []ssa.Value{bo.X, bo.Y} {
+		for _, d := range deepStoresTo(fn, cTail) {
+			if bo, ok := stripConv(d.Store.Val).(*ssa.BinOp); ok && bo.Op == token.ADD {
+				for _, op := range []ssa.Value{d.translate(bo.X), d.translate(bo.Y)} {
 					if big, small, ok := minOf(op); ok {
 						sizePhi = stripConv(op)
 						if _, isPrm := small.(*ssa.Parameter); isPrm {
@@ -225,7 +225,7 @@ func runC10(c *Ctx) {
 			// pairs (claimHead_i, free_i)
 			fph, ok := free.(*ssa.Phi)
 			var hph *ssa.Phi
-			for _, a := range storesTo(fn, cHead) {
+			for _, a := range storesDeep(fn, cHead) {
 				if ph, ok := stripConv(a.Val).(*ssa.Phi); ok {
 					hph = ph
 				}
